@@ -5,10 +5,14 @@
    stores), changes nothing else apart from the two parents' name lists, and a failed validation changes
    nothing at all. PARTIAL for copy: its clauses are evaluated on the real code's pre/post snapshots for every
    tree of the bounded namespace and every pair of paths (tools/frames.py), and the mirror of _copy agrees with
-   the code state-for-state; proved are no-panic and well-formedness preservation (C03). *)
+   the code state-for-state; proved are no-panic, well-formedness preservation (C03) and (Memfs/CopyFacts.v)
+   that copy only ever adds: whatever it returns, every entry that existed - the source included - is still
+   there under the same path with the same kind, link target and owner, and the same mode unless a chmod
+   option was given, directories list at least what they listed, no file loses its content, cwd and root stay.
+   That the destination receives a copy of every source entry is not yet a theorem. *)
 From stdpp Require Import gmap.
 From Coq Require Import NArith.
-From RV Require Import Base.Str Path.Helpers Path.Expand Memfs.State Memfs.Ops Memfs.Walk Memfs.WalkOps Memfs.Step Memfs.ContentFacts Memfs.MoveFacts Memfs.Wf Memfs.WfMove.
+From RV Require Import Base.Str Path.Helpers Path.Expand Memfs.State Memfs.Ops Memfs.Walk Memfs.WalkOps Memfs.Step Memfs.ContentFacts Memfs.MoveFacts Memfs.Wf Memfs.WfMove Memfs.CopyFacts.
 
 Theorem C09_move_validation_frame : forall env m s d e m',
   move_validation env m s d = inr e -> move_op env m s d = Done (m', inr e) -> m' = m.
@@ -72,3 +76,9 @@ Theorem C09_move_cwd_root : forall env m m' s d sb db sd dd r, WF m ->
   m_cwd m' = m_cwd m /\ m_root m' = m_root m /\ r = inl tt.
 Proof. exact move_cwd_root. Qed.
 Print Assumptions C09_move_cwd_root.
+
+(* copy only ever adds: the source, and everything else that existed, is kept *)
+Theorem C09_copy_keeps_everything : forall env m s d o r, copy_op env m s d o = Done r ->
+  grows (match cp_mode o with None => true | Some _ => false end) m r.1.
+Proof. exact copy_grows. Qed.
+Print Assumptions C09_copy_keeps_everything.
